@@ -361,6 +361,10 @@ class _Lowerer:
                                     % (low.short, t.line, t.text))
             if t.kind == "comment" and t.line > 1:
                 pass
+        ncom = [t.line for t in toks if t.kind == "comment"]
+        if ncom:
+            low.drop(ncom[0], "comments", "%d comment tokens dropped (lines %s)"
+                     % (len(ncom), ",".join(map(str, ncom[:40])) + ("..." if len(ncom) > 40 else "")))
         lls = logical_lines(toks)
         out = []            # [(LLine, new token list | None)]
         cur_fn = None       # (FuncInfo, indent)
